@@ -73,6 +73,24 @@ def related_state(rng, kind, base, wf=True):
     return [live, tomb]
 
 
+def grow_low_key(rng, kind, base):
+    """a delta equal to `base` except that the value at one of the lower keys grows (the later
+    keys are covered by the receiver): exercises the accumulation of the changed flag"""
+    live, tomb = json.loads(json.dumps(base))
+    if kind == "set" or not live:
+        return [live, tomb]
+    i = rng.below(max(1, len(live) - 1))
+    k, v = live[i]
+    if kind == "mapmax":
+        v = min(255, v + 1 + rng.below(3))
+    else:
+        v = sorted(set(v) | {rng.choice([0, 1, 2, 3])})
+    live[i] = [k, v]
+    if rng.chance(1, 3) and len(live) > 1:
+        live.pop(rng.below(len(live)))
+    return [live, []] if rng.chance(1, 2) else [live, tomb]
+
+
 def py_merge(kind, a, b):
     """generator-side approximation of the merge (steers the generator only; never an oracle)"""
     ta, tb = set(a[1]), set(b[1])
@@ -109,8 +127,10 @@ def gen_case(rng, tier):
             s = gen_state(rng, kind, wf)
         elif r < 7:
             s = related_state(rng, kind, acc, wf)
-        elif r < 9:
+        elif r < 8:
             s = related_state(rng, kind, rng.choice(states), wf)
+        elif r < 9:
+            s = grow_low_key(rng, kind, acc) if kind != "set" else related_state(rng, kind, acc, wf)
         else:
             # a pure delete / a pure insert, as the repo's tests do them
             x = rng.choice(DOMAIN)
@@ -187,7 +207,9 @@ def to_coq(case, res):
         return 3
     kind = case["kind"]
     states = case["states"]
-    steps = "[" + "; ".join("[" + "; ".join(g_step(kind, st) for st in res[b]["steps"]) + "]" for b in BACKENDS) + "]"
+    step_sources = BACKENDS + (["hash_bt"] if "hash_bt" in res else [])
+    steps = "[" + "; ".join("[" + "; ".join(g_step(kind, st) for st in res[b]["steps"]) + "]"
+                            for b in step_sources) + "]"
     trees = "[" + "; ".join(g_state(kind, res[b]["tree"]) for b in BACKENDS) + "]"
     return "%s %s [%s] %s %s %s" % (CHK[kind], g_state(kind, states[0]),
                                     "; ".join(g_state(kind, s) for s in states[1:]),
